@@ -15,3 +15,18 @@ def run(rep, ctx):
     run_D9(rep, g)
     run_specs(rep, ctx, 'C14')
     k1_pairing(rep, g, 'K1-cfa', S['w_cfi_instr'], [S['cfi_instr_parse']], 'DW_CFA_')
+    # K1-ehpe: the writer's encoded-pointer codec agrees with the reader's per DW_EH_PE format
+    rep.rule('K1-ehpe', 'per DW_EH_PE_* format constant: the operand Writer::write_eh_pointer_data emits equals the operand read::cfi::parse_encoded_value '
+             'consumes (absptr: address-sized on both sides); a format handled on one side only is a violation')
+    wspec = dict(id='w_eh_pe', kind='consteff', fn='write::writer::Writer::write_eh_pointer_data', const_ty='constants::DwEhPe')
+    wrows = extract(g, wspec)
+    rrows = extract(g, S['eh_pe_value'])
+    fnw = g.fn(wspec['fn'])
+    norm = lambda seqs: sorted(sorted('ADDR' if a in ('BN', 'ADDR') else a for a in q) for q in seqs)
+    for c in sorted(set(wrows) | set(rrows)):
+        key = 'eh_pe|%s' % c
+        if c not in wrows or c not in rrows:
+            rep.bad('K1-ehpe', key, '%s is handled by %s only' % (c, 'the reader' if c not in wrows else 'the writer'), fnw.loc())
+        else:
+            rep.check('K1-ehpe', key, norm(wrows[c]) == norm(rrows[c]), 'writer %s, reader %s' % (wrows[c], rrows[c]), fnw.loc(), why='same operand kind')
+    rep.floor('K1-ehpe', 'pointer formats paired', len(set(wrows) & set(rrows)), 9)
